@@ -436,7 +436,7 @@ def solve(A, b, overwrite_a=False, overwrite_b=False, check_finite=True, assume_
     A = asobj(A)
     b = asobj(b)
     x = policy().solve(A, b)
-    _log('solve', A=A.copy(), b=b.copy(), x=x, contract=['A x = b', 'A nonsingular'])
+    _log('solve', A=A.copy(), b=b.copy(), x=x, x0=x.copy(), contract=['A x = b', 'A nonsingular'])
     _maybe_overwrite(A0, overwrite_a, 'solve_a')
     _maybe_overwrite(b0, overwrite_b, 'solve_b')
     return x
@@ -515,7 +515,7 @@ def expm_multiply(A, v, **kw):
     A = asobj(A)
     v = asobj(v)
     r = policy().expm_multiply(A, v)
-    _log('expm_multiply', A=A.copy(), v=v.copy(), r=r, contract=['expm(A) v'])
+    _log('expm_multiply', A=A.copy(), v=v.copy(), r=r, r0=r.copy(), contract=['expm(A) v'])
     return r
 
 
